@@ -530,6 +530,67 @@ def check_converter(case):
     return {"nontrivial": True, "classes": ["wrapped_cost"]}
 
 
+# ------------------------------------------------------------------ very long series
+
+
+def huge_cells(tier):
+    """Series of 3.4 to 8 million samples: interval lengths whose products (n n_left n_right ~ 4e19) leave the int64 range,
+    sums over millions of terms. Data = seeded unit noise around a level with one shift (numpy PCG64, seed stored)."""
+    cells = [(3_400_000, 1, 0.0), (5_000_000, 1, 100.0)]
+    if tier != "quick":
+        cells += [(8_000_000, 1, 0.0), (4_200_000, 2, -3.0)]
+    for i, (n, p, level) in enumerate(cells):
+        yield {"n": n, "p": p, "level": level, "seed": 6000 + i}
+
+
+def check_huge(case):
+    from skchange.anomaly_scores import L2Saving, LocalAnomalyScore, Saving
+    from skchange.change_scores import CUSUM, ChangeScore
+    from skchange.costs import L2Cost
+
+    n, p = case["n"], case["p"]
+    rng = np.random.Generator(np.random.PCG64(case["seed"]))
+    X = rng.standard_normal((n, p)) + case["level"]
+    X[n // 2:] += 0.01
+    # cuts: the whole series and other multi-million intervals, split in the middle, near the ends and at random places
+    cuts3 = [[0, n // 2, n], [0, 10, n], [0, n - 10, n], [7, n // 3, n - 5], [n // 10, n // 2 + 1234, n - n // 10],
+             [0, 1_700_000, 3_399_000], [1000, 2000, 3000]]
+    cuts3 += [sorted(int(v) for v in rng.choice(n + 1, size=3, replace=False)) for _ in range(8)]
+    cuts3 = np.asarray(cuts3, dtype=np.int64)
+    S1 = np.concatenate((np.zeros((1, p), dtype=np.longdouble), np.cumsum(X.astype(np.longdouble), axis=0)))
+    S2 = np.concatenate((np.zeros((1, p), dtype=np.longdouble), np.cumsum(X.astype(np.longdouble) ** 2, axis=0)))
+
+    def rss(a, b):  # definitional residual sum of squares from long-double prefix sums
+        m = b - a
+        return (S2[b] - S2[a]) - (S1[b] - S1[a]) ** 2 / m
+
+    with sut("scorers on a series of several million samples"):
+        cus = np.asarray(CUSUM().fit(X).evaluate(cuts3), dtype=float) ** 2
+        chg = np.asarray(ChangeScore(L2Cost()).fit(X).evaluate(cuts3), dtype=float)
+        cuts2 = cuts3[:, [0, 2]]
+        sav = np.asarray(L2Saving().fit(X).evaluate(cuts2), dtype=float)
+        sav2 = np.asarray(Saving(L2Cost(0.0)).fit(X).evaluate(cuts2), dtype=float)
+        cuts4 = np.asarray([[c[0], c[0] + (c[1] - c[0]) // 2 + 1, c[1], c[2]] for c in cuts3 if c[1] - c[0] >= 4 and c[2] > c[1]],
+                           dtype=np.int64)
+        loc = np.asarray(LocalAnomalyScore(L2Cost()).fit(X).evaluate(cuts4), dtype=float)
+    d_chg = np.array([rss(s, e) - rss(s, k) - rss(k, e) for s, k, e in cuts3], dtype=float)
+    d_sav = np.array([(S1[e] - S1[s]) ** 2 / (e - s) for s, e in cuts2], dtype=float)
+    # rounding of float64 prefix sums over n terms of magnitude M^2: n eps n M^2 is the worst case, sqrt(n) typical
+    M2 = float(np.abs(X).max()) ** 2
+    tol = 64 * np.finfo(float).eps * n * M2 * np.sqrt(n)
+    for name, got, want in (("CUSUM^2", cus, d_chg), ("ChangeScore(L2Cost)", chg, d_chg), ("L2Saving", sav, d_sav),
+                            ("Saving(L2Cost(0))", sav2, d_sav)):
+        if got.shape != want.shape or not np.all(np.isfinite(got)) or np.any(np.abs(got - want) > tol):
+            i = int(np.argmax(~np.isfinite(got).all(axis=1) | (np.abs(got - want).max(axis=1) > tol))) if got.shape == want.shape else 0
+            raise Violation(f"{name} differs from its definition on a very long series", n=n, cut=cuts3[i].tolist(),
+                            got=np.asarray(got[i]).tolist(), definition=np.asarray(want[i]).tolist(), tolerance=tol)
+    d_loc = np.array([rss(s, e) - rss(a, b) - ((S2[a] - S2[s] + S2[e] - S2[b]) - (S1[a] - S1[s] + S1[e] - S1[b]) ** 2 / ((a - s) + (e - b)))
+                      for s, a, b, e in cuts4], dtype=float)
+    if not np.all(np.isfinite(loc)) or np.any(np.abs(loc - d_loc) > tol):
+        raise Violation("LocalAnomalyScore(L2Cost) differs from its definition on a very long series", n=n, tolerance=tol)
+    return {"nontrivial": True, "classes": [f"n>={n // 1_000_000}e6", f"p={p}"]}
+
+
 FACETS = [
     Facet(name="change_score_identity", check=check_change, strategy=change_cases,
           rule=("ChangeScore(cost) for L2/GaussianVar/GaussianCov/user L1Cost (optimal and fixed parameter), admissible "
@@ -561,4 +622,9 @@ FACETS = [
           rule=("to_change_score / to_saving / to_local_anomaly_score applied to every scorer kind: same kind is passed "
                 "through (identity), costs are wrapped and evaluate like the adapter, everything else raises ValueError"),
           n_quick=150, n_thorough=1000, shards_quick=2, shards_thorough=4),
+    Facet(name="huge_series", kind="enumerate", enumerate=huge_cells, check=check_huge, exhaustive=True, time_limit=600,
+          rule=("series of 3.4 and 5 million samples (thorough: up to 8 million, p up to 2; seeded noise around levels 0 / 100 with one small "
+                "shift): CUSUM^2, ChangeScore(L2Cost), L2Saving, Saving(L2Cost(0)) and LocalAnomalyScore(L2Cost) on multi-million-sample "
+                "intervals (products of the three lengths beyond the int64 range) against long-double definitional values; every cell non-trivial"),
+          shards_quick=2, shards_thorough=4, max_samples=1),
 ]
